@@ -38,7 +38,7 @@ def _task(t):
     modes = E.MODES + (E.NESTED_MODES if (len(t) > 4 and t[4]) else ())
     structured = isinstance(vals, E.Structured)
     if structured:
-        modes = ("plain", "ign")
+        modes = ("plain", "ign") if vals.full else ("plain",)
     name = O.expr_str(prog["expr"], prog["kinds"])
     kinds = prog["kinds"]
     const_idx = [i for i, k in enumerate(kinds) if k == "K"]
@@ -144,11 +144,14 @@ def run(ctx):
     cfgs = [(3, REC.BN128), (2, REC.BLS12_381), (65, REC.BN128)] + ([(4, REC.CURVE25519), (8, REC.BN128), (128, REC.BLS12_381), (33, REC.BN128)] if ctx.thorough else [])
     for n, p in cfgs:
         vals = E.D(n) if n <= 3 else E.lattice(n)
+        if n == 65 and not ctx.thorough:
+            from .. import e1 as _e1
+            vals = _e1.wide_values65()
         for prog in progs:
             tasks.append((prog, n, p, vals, n == 2 or ctx.thorough))       # nested guards at bitlength 2
     # structured interior values at the default bitlength 16 (value-dependent fast paths change the trace)
     for prog in progs:
-        tasks.append((prog, 16, REC.BN128, E.Structured(16), False))
+        tasks.append((prog, 16, REC.BN128, E.Structured(16, full=ctx.thorough), False))
     d2 = X.depth2_family(ctx)
     for prog in d2:
         tasks.append((prog, 2, REC.BN128, E.D(2)))
